@@ -23,7 +23,7 @@ var registerOnce sync.Once
 // Fault is one injected transient failure of the tier1 -> tier2 call.
 type Fault struct {
 	Call  int    `json:"call"`  // n-th ProcessRange call of the request (0-based)
-	Kind  string `json:"kind"`  // before | overloaded | drop-mid | drop-after-done
+	Kind  string `json:"kind"`  // before | overloaded | drop-mid | drop-mid-canceled | drop-after-done
 	After int    `json:"after"` // drop-mid: messages forwarded before the drop
 }
 
@@ -109,17 +109,24 @@ func (f *fakeClient) ProcessRange(ctx context.Context, in *pbssinternal.ProcessR
 	}
 	f.remote.svcOnce.Do(func() { f.remote.svc = service.VerifNewTier2(f.cfg.streamFactory(true), f.remote.Limit) })
 	svc := f.remote.svc
+	dropMid := fault != nil && (fault.Kind == "drop-mid" || fault.Kind == "drop-mid-canceled")
+	dropErr := status.Error(codes.Unavailable, "transport is closing (injected)")
+	if fault != nil && fault.Kind == "drop-mid-canceled" {
+		// what tier1 receives when the tier2 side loses its caller or goes away: toGRPCError maps it to Canceled,
+		// while tier1's own request context is alive
+		dropErr = status.Error(codes.Canceled, "context canceled (injected: the remote end went away)")
+	}
 	go func() {
 		defer close(ch)
 		defer srvCancel()
 		sent := 0
 		dropped := false
 		ss := &serverStream{ctx: srvCtx, send: func(r *pbssinternal.ProcessRangeResponse) error {
-			if fault != nil && fault.Kind == "drop-mid" && sent >= fault.After {
+			if dropMid && sent >= fault.After {
 				if !dropped {
 					dropped = true
 					srvCancel() // the connection is gone: the server side sees its context cancelled
-					ch <- pipeMsg{err: status.Error(codes.Unavailable, "transport is closing (injected)")}
+					ch <- pipeMsg{err: dropErr}
 				}
 				return status.Error(codes.Canceled, "client gone")
 			}
@@ -134,9 +141,9 @@ func (f *fakeClient) ProcessRange(ctx context.Context, in *pbssinternal.ProcessR
 		if dropped {
 			return
 		}
-		if fault != nil && fault.Kind == "drop-mid" && !dropped {
+		if dropMid && !dropped {
 			// the job sent fewer messages than planned: drop right at the end instead
-			ch <- pipeMsg{err: status.Error(codes.Unavailable, "transport is closing (injected)")}
+			ch <- pipeMsg{err: dropErr}
 			return
 		}
 		if fault != nil && fault.Kind == "drop-after-done" && err == nil {
